@@ -3,11 +3,25 @@
 MOD_PRELUDE = r'''
 use crate::vm::stack::Stack;
 use crate::vm::heap::Heap;
+use crate::cell::Cell;
 /// what `heap.get(cell)` yields: the cell a pointer refers to, any other cell itself
 pub uninterp spec fn heap_deref(h: Heap, c: VCell) -> VCell;
-/// the index / vector a popped argument cell denotes, if it is one (pop_index / pop_vector accept exactly these)
-pub uninterp spec fn cell_index(h: Heap, c: VCell) -> Option<usize>;
-pub uninterp spec fn cell_vector(h: Heap, c: VCell) -> Option<Rc<Vector>>;
+/// the cell an `Into<Cow<VCell>>` argument of Heap::get denotes
+pub uninterp spec fn cow_cell<T>(x: T) -> VCell;
+#[verifier::external_body]
+pub proof fn axiom_cow_cell_ref(c: &VCell) ensures cow_cell::<&VCell>(c) == *c {}
+pub assume_specification<'a, T: Into<std::borrow::Cow<'a, VCell>>> [Heap::get] (h: &Heap, v: T) -> (r: VCell) ensures r == heap_deref(*h, cow_cell(v));
+pub assume_specification [Heap::get_as_cell] (h: &Heap, v: &VCell) -> (r: Cell);
+/// rendering a datum / a number for an error message cannot fail
+impl vstd::std_specs::fmt::DisplaySpecImpl for Cell { open spec fn fmt_req(&self, f: &core::fmt::Formatter<'_>) -> bool { true } }
+impl vstd::std_specs::fmt::DisplaySpecImpl for Number { open spec fn fmt_req(&self, f: &core::fmt::Formatter<'_>) -> bool { true } }
+/// Number::to_usize as a function of the number (exact non-negative integers that fit)
+pub uninterp spec fn num_to_usize(n: Number) -> Option<usize>;
+pub assume_specification [Number::to_usize] (n: &Number) -> (r: Option<usize>) ensures r == num_to_usize(*n);
+/// the number / index / vector a popped argument cell denotes, if it is one
+pub open spec fn cell_number(h: Heap, c: VCell) -> Option<Number> { match heap_deref(h, c) { VCell::Number(n) => Some(n), _ => None } }
+pub open spec fn cell_index(h: Heap, c: VCell) -> Option<usize> { match heap_deref(h, c) { VCell::Number(n) => num_to_usize(n), _ => None } }
+pub open spec fn cell_vector(h: Heap, c: VCell) -> Option<Rc<Vector>> { match heap_deref(h, c) { VCell::Vector(v) => Some(v), _ => None } }
 /// k-th cell from the top of the stack (k = 0: the top, i.e. the argument count when a builtin is entered)
 pub open spec fn arg(vm: Vm, k: int) -> VCell { vm.stack_spec().cells()[vm.stack_spec().sp_spec() - k] }
 /// the machine except its stack pointer is left alone, and `n` cells were popped
@@ -48,12 +62,11 @@ UNITS = [
     {
         'name': 'builtin_mod',
         'file': 'src/vm/builtin/mod.rs',
-        'uses_types': ['VCell', 'Error', 'Heap', 'Vector', 'VectorView'],
+        'uses_types': ['VCell', 'Error', 'Heap', 'Vector', 'VectorView', 'Cell', 'Number'],
         'prelude': MOD_PRELUDE,
         'fns': {
-            # error paths of the poppers build their messages with format! (not ingestible): contracts assumed
             '::pop_argc': {
-                'props': T, 'trusted': True, 'requires': POP_REQ,
+                'props': T, 'requires': POP_REQ, 'body_start': 'proof { if old(vm).stack_spec().sp_spec() > 0 { axiom_cow_cell_ref(&arg(*old(vm), 0)); } }',
                 'ensures': [
                     (T, 'r is Ok ==> popped(*old(vm), *final(vm), 1)'),
                     (T, 'r matches Ok(n) ==> old(vm).stack_spec().sp_spec() > 0 && arg(*old(vm), 0) == VCell::ArgumentCount(n) && n >= min && (max matches Some(m) ==> n <= m)'),
@@ -61,8 +74,16 @@ UNITS = [
                     (T, 'r is Err ==> final(vm).stack_spec().wf()'),
                 ],
             },
+            '::pop_number': {
+                'props': T + ['C08'], 'requires': POP_REQ, 'body_start': 'proof { if old(vm).stack_spec().sp_spec() > 0 { axiom_cow_cell_ref(&arg(*old(vm), 0)); } }',
+                'ensures': [
+                    (T, 'r is Ok ==> popped(*old(vm), *final(vm), 1)'),
+                    (T, 'r matches Ok(n) ==> old(vm).stack_spec().sp_spec() > 0 && cell_number(old(vm).heap_spec(), arg(*old(vm), 0)) == Some(n)'),
+                    (T, 'r is Err ==> final(vm).stack_spec().wf()'),
+                ],
+            },
             '::pop_index': {
-                'props': T, 'trusted': True, 'requires': POP_REQ,
+                'props': T, 'requires': POP_REQ, 'body_start': 'proof { if old(vm).stack_spec().sp_spec() > 0 { axiom_cow_cell_ref(&arg(*old(vm), 0)); } }',
                 'ensures': [
                     (T, 'r is Ok ==> popped(*old(vm), *final(vm), 1)'),
                     (T, 'r matches Ok(i) ==> old(vm).stack_spec().sp_spec() > 0 && cell_index(old(vm).heap_spec(), arg(*old(vm), 0)) == Some(i)'),
@@ -71,7 +92,7 @@ UNITS = [
                 ],
             },
             '::pop_vector': {
-                'props': T, 'trusted': True, 'requires': POP_REQ,
+                'props': T, 'requires': POP_REQ, 'body_start': 'proof { if old(vm).stack_spec().sp_spec() > 0 { axiom_cow_cell_ref(&arg(*old(vm), 0)); } }',
                 'ensures': [
                     (T, 'r is Ok ==> popped(*old(vm), *final(vm), 1)'),
                     (T, 'r matches Ok(v) ==> old(vm).stack_spec().sp_spec() > 0 && cell_vector(old(vm).heap_spec(), arg(*old(vm), 0)) == Some(v)'),
